@@ -205,7 +205,10 @@ func c14CutEnum(r *R) {
 	} else {
 		nw.LateWriteErr = 0
 	}
-	opt := c14Retry(r, rest/20)
+	// the retry setting changes from one offset to the next and is shifted by one each time the list of offsets wraps, so
+	// that a quick batch already combines cuts inside a frame with "attempts left" (it used to advance only after 20 wraps:
+	// the quick tier ran every cut with ReconnectLimit 0)
+	opt := c14Retry(r, ord/2+rest)
 	a := StartRNode(r, nw, 1, c14AddrA, opt)
 	if r.Failed() {
 		return
@@ -250,8 +253,28 @@ func c14CutEnum(r *R) {
 	}
 	vsimrt.SettleFor(time.Second)
 	what := "cut=" + where
-	if _, ok := c14CheckFlow(r, a, b, "m", len(c14Sizes), what); !ok {
+	received, ok := c14CheckFlow(r, a, b, "m", len(c14Sizes), what)
+	if !ok {
 		return
+	}
+	// A cut that the writer learns at once (the failing Write returns the error) and that lets the reader drain what was
+	// written before it (end of stream, not a reset): nothing is lost legitimately - everything written before the cut is
+	// read, the write that failed is repeated on the next connection while attempts are left. So every message is either
+	// delivered or, attempts exhausted, reported as a dead letter.
+	if offset <= total && !late && !rst && !reverse && offset >= hs && opt.ReconnectLimit >= 1 {
+		a.mu.Lock()
+		dls := map[string]bool{}
+		for _, d := range a.deadLetters {
+			dls[d] = true
+		}
+		a.mu.Unlock()
+		for k := range c14Sizes {
+			if !received[int64(k)] && !dls[fmt.Sprintf("m#%d", k)] {
+				r.Fail("C14/lost-without-dead-letter "+what, "message m#%d was neither delivered nor reported as a dead letter although the write that failed returned its error at once, the stream written before the cut (offset %d, end of stream) could be read to its end, and reconnect attempts were left (limit %d)", k, offset, opt.ReconnectLimit)
+				return
+			}
+		}
+		r.Count("cut-with-immediate-error: every message accounted for")
 	}
 	if !c14Liveness(r, a, b, "p", 6, 500*time.Millisecond, what) {
 		return
